@@ -6,7 +6,7 @@ cd /verif
 TIER=${1:-quick}; shift
 SEEDS=${@:-20261003 1 7}
 fail=0
-for d in seeded/C*; do
+for d in seeded/[CR]*; do
   id=$(basename $d)
   prop=$(python3 -c "import json;m=json.load(open('$d/meta.json'));print(m.get('detected_by',{}).get('check') or m['property'])")
   res=""
@@ -20,7 +20,7 @@ done
 for d in seeded/benign/B*; do
   id=$(basename $d)
   props=$(python3 -c "
-m={'B08':'C08 C17','B14':'C14 C15','B14b':'C14 C15','B15':'C15 C14','B15b':'C15 C14','B15c':'C15 C14','B17':'C17 C08','B17b':'C17 C08','B08b':'C08 C17','B18b':'C18 C19','B19b':'C19 C18','B18':'C18 C19','B19':'C19 C18'}
+m={'B08':'C08 C17','B14':'C14 C15','B14b':'C14 C15','B15':'C15 C14','B15b':'C15 C14','B15c':'C15 C14','B17':'C17 C08','B17b':'C17 C08','B08b':'C08 C17','B18b':'C18 C19','B19b':'C19 C18','B18':'C18 C19','B19':'C19 C18','B14c':'C14 C15','B17c':'C17 C08'}
 print(m.get('$id','C08 C14 C15 C17 C18 C19'))")
   for p in $props; do
     res=""
